@@ -15,3 +15,32 @@ for _p in sorted(glob.glob(os.path.join(_here, "propdefs", "C*.py"))):
     PROPS[_id] = _m.PROP
     if hasattr(_m, "TEXT"):
         TEXT[_id] = _m.TEXT
+
+
+def _expand_uchar(cfg):
+    """"uchar": [target names] in a PROP -> a build variant of the same harness and units compiled with
+    -funsigned-char (plain char unsigned, as on the ARM / RISC-V targets the library is written for) that runs the
+    named random targets under the name <target>@uchar at a quarter of their case counts."""
+    names = cfg.get("uchar")
+    if not names:
+        return
+    def flagged(u):
+        u = {"src": "V:" + u} if isinstance(u, str) else dict(u)
+        u["flags"] = list(u.get("flags", [])) + ["-funsigned-char"]
+        u["tag"] = u.get("tag", "") + "uchar"
+        return u
+    targets = []
+    for t in cfg["targets"]:
+        if t["name"] in names and t.get("mode", "random") == "random":
+            t2 = dict(t, name=t["name"] + "@uchar")
+            for k in ("quick", "thorough"):
+                if t2.get(k):
+                    t2[k] = max(1000, int(t2[k]) // 4)
+            targets.append(t2)
+    var = {"name": "uchar", "harness": [flagged(h) for h in cfg["harness"]], "units": [flagged(u) for u in cfg.get("units", [])],
+           "targets": targets}
+    cfg.setdefault("variants", []).append(var)
+
+
+for _cfg in PROPS.values():
+    _expand_uchar(_cfg)
